@@ -35,6 +35,8 @@ ASSUMPTIONS = [
     "results in which a log-variable level is outside (1e-6, 1e6) are counted as degenerate pseudo-solutions of the absolute residual test and not judged",
     "equations are evaluated in the form they are written (levels for the multiplicative rendering), as the solver sees them",
     "steady plans are exercised with the nonlinear steady solver only (linear=False); the linear solver does not take plans",
+    "chain family: a 2x2 simultaneous core followed by a chain of 2-3 definitional equations written in a drawn order (every link of the block ordering matters)",
+    "flat-override history: a model created with flat=False that carries non-neutral changes is solved with solve_steady(flat=True) and must store a flat steady state",
     "plans: exactly identified; the endogenized parameter is one the harness knows enters the exogenized variable's equation",
 ]
 
@@ -43,8 +45,28 @@ DATES = (0, 3, -2)
 
 @st.composite
 def _case(draw):
-    fam = draw(st.sampled_from(["additive", "additive_growth", "log", "log_growth", "nl"]))
-    if fam == "nl":
+    fam = draw(st.sampled_from(["additive", "additive_growth", "log", "log_growth", "nl", "chain"]))
+    if fam == "chain":
+        # a simultaneous core (x0 <-> x1) followed by a chain of definitions x2 = f(x0), x3 = g(x2), x4 = h(x3):
+        # the block ordering matters for every link of the chain
+        c_ = lambda lo, hi: draw(st.integers(int(lo * 20), int(hi * 20))) / 20.0  # noqa: E731
+        nz = lambda lo, hi: (lambda v: v if abs(v) >= 0.1 else 0.3)(c_(lo, hi))  # noqa: E731
+        depth = draw(st.integers(2, 3))
+        eqs = [{"terms": [[1, 0, nz(-0.6, 0.6)], [0, -1, c_(-0.5, 0.5)]], "const": nz(-1, 1), "shock": 1.0},
+               {"terms": [[0, 0, nz(-0.6, 0.6)]], "const": nz(-1, 1), "shock": 1.0}]
+        for d in range(depth):
+            src_ = 0 if d == 0 else 1 + d
+            eqs.append({"terms": [[src_, draw(st.sampled_from([0, 0, -1])), nz(-1.5, 1.5)]], "const": nz(-1, 1), "shock": 0.0})
+        n_ = len(eqs)
+        perm = draw(st.permutations(list(range(len(lm.VAR_NAMES)))))
+        spec = {"n": n_, "names": [lm.VAR_NAMES[perm[i]] for i in range(n_)], "eqs": eqs, "meas": [], "params": [],
+                "log": draw(st.booleans()), "render": {"norm": [0] * n_, "order": draw(st.integers(0, 3))}}
+        spec["eqs"] = [e for e in eqs]
+        if not spec["log"]:
+            spec["nl"] = [[0, 0, 0, draw(st.sampled_from([0.1, -0.1, 0.2])), draw(st.sampled_from(sorted(lm.NL_KINDS)))]]
+        # equations are written in a drawn order (the blazer must find the order itself)
+        spec["eq_order"] = list(draw(st.permutations(list(range(n_)))))
+    elif fam == "nl":
         spec = draw(lm.nl_spec_strategy(max_n=3, meas=(0, 1)))
     else:
         spec = draw(lm.spec_strategy(max_n=4, meas=(0, 1), allow_log=True))
@@ -67,6 +89,7 @@ def _case(draw):
     pert = [draw(st.floats(-0.2, 0.2, allow_nan=False).map(lambda x: round(x, 3))) for _ in range(n)]
     return {"spec": spec, "family": fam, "rw": rw, "nv": nv, "plan": plan, "perturb": pert,
             "flat": draw(st.booleans()) if rw is None else False,
+            "flat_override": draw(st.integers(0, 2)) == 0,
             "split": draw(st.sampled_from([True, False, None])),
             "fixed_value": draw(st.sampled_from([1.0, 2.5, 0.7])),
             "target_shift": draw(st.sampled_from([0.1, -0.1, 0.05]))}
@@ -75,6 +98,7 @@ def _case(draw):
 def _classify(case):
     spec = case["spec"]
     labels = [f"family_{case['family']}", f"plan_{case['plan']}", f"variants_{case['nv']}",
+              "flat_override_history" if (case.get("flat_override") and case["flat"]) else "no_history",
               "flat" if case["flat"] else "nonflat", f"split_{case['split']}"]
     return True, labels
 
@@ -145,7 +169,8 @@ def _check(case):
         if rw is None and lm.steady(sv)[0] is None:
             return {"labels": ["singular_or_extreme_steady"], "nontrivial": False}
     linear = not (spec["log"] or lm.nl_terms(spec) or case["plan"] != "none")     # plans belong to the nonlinear solver
-    m = api("from_string", ir.Simultaneous.from_string, lm.source(spec), linear=linear, flat=case["flat"])
+    override = bool(case.get("flat_override")) and case["flat"] and not linear
+    m = api("from_string", ir.Simultaneous.from_string, lm.source(spec), linear=linear, flat=(False if override else case["flat"]))
     if nv > 1:
         api("alter_num_variants", m.alter_num_variants, nv)
     api("assign_parameters", lambda: m.assign(**{p["name"]: p["value"] for p in spec["params"]}))
@@ -161,6 +186,11 @@ def _check(case):
         guess[nm] = vals if nv > 1 else vals[0]
     if not linear:
         api("assign_guess", lambda: m.assign(**guess))
+    if override:
+        # history: the model was created non-flat and carries non-neutral changes (as after an earlier growth solve);
+        # solve_steady(flat=True) must then store a flat steady state
+        stale = 1.02 if spec["log"] else 0.02
+        api("assign_stale_changes", lambda: m.assign(**{nm: ((g[0] if isinstance(g, list) else g), stale) for nm, g in guess.items()}) if nv == 1 else None)
     # ---- plan ---------------------------------------------------------------------------
     plan = None
     fixed = {}
@@ -192,6 +222,8 @@ def _check(case):
         kwargs["plan"] = plan
     if case["split"] is not None and not linear:
         kwargs["split_into_blocks"] = case["split"]
+    if override:
+        kwargs["flat"] = True
     try:
         m.solve_steady(**kwargs)
     except Exception as exc:  # noqa: BLE001 - the property is conditional on completion
